@@ -224,3 +224,39 @@ def from_dict(name, fields, items):
         if k in known:
             values[k] = v
     return make_rec(name, fields, values)
+
+
+# ---- self-check (python -m verif.refmodels_c15) ---------------------------------------------------------
+def selftest():
+    s = lambda x: ["str", "string", x]  # noqa: E731
+    i = lambda x: ["int", "varint", x]  # noqa: E731
+    d1, d2 = ["dt", 2020, 1, 1, 0, 0, 0, 0, 0], ["dt", 2021, 1, 1, 0, 0, 0, 0, 0]
+    a = make_rec("t/a", [("string", "x"), ("varint", "y")], {"x": s("ax"), "y": i(1), "_source": s("SA"), "_generated": d1})
+    b = make_rec("t/b", [("varint", "x"), ("string", "z")], {"x": i(2), "z": s("bz"), "_source": s("SB"), "_generated": d2})
+    e = extend([a, b])
+    assert e[1] == "t/a" and e[2] == [["string", "x"], ["varint", "y"], ["string", "z"]]
+    assert values_of(e)["x"] == s("ax") and values_of(e)["_source"] == s("SA") and values_of(e)["_generated"] == d1
+    e = extend([a, b], replace=True, name="n/n")
+    assert e[1] == "n/n" and e[2] == [["varint", "x"], ["varint", "y"], ["string", "z"]]
+    assert values_of(e)["x"] == i(2) and values_of(e)["_source"] == s("SB") and values_of(e)["y"] == i(1)
+    t = make_rec("t/t", [("datetime", "a"), ("string", "ts_description"), ("datetime", "ts")], {"a": d1, "ts": d2, "ts_description": s("own"), "_source": s("S")})
+    ex = expand_timestamps(t)
+    assert [values_of(o)["ts_description"] for o in ex] == [s("a"), s("ts")]
+    assert [values_of(o)["ts"] for o in ex] == [d1, d2]
+    assert ex[0][2] == [["datetime", "ts"], ["string", "ts_description"], ["datetime", "a"]] and values_of(ex[1])["_source"] == s("S")
+    assert expand_timestamps(b) == [b]
+    g = ["grouped", "g/x", [a, b]]
+    f = flat_view(g)
+    assert f[1] == "g/x" and f[2] == [["string", "x"], ["varint", "y"], ["string", "z"]] and values_of(f)["x"] == s("ax") and values_of(f)["_source"] == s("SA")
+    p = project(g, ["z", "nope", "z", "x", "_source"], ["x"])
+    assert p[2] == [["string", "z"]] and values_of(p)["_source"] == s("SA") and project(g, [], []) is g
+    assert project(a, [], ["y"])[2] == [["string", "x"]]
+    r = replace_fields(g, {"x": s("new"), "_source": s("N")})
+    assert values_of(r[2][0])["x"] == s("new") and values_of(r[2][1])["x"] == i(2) and values_of(r[2][1])["_source"] == s("SB")
+    fd = from_dict("t/a", [("string", "x"), ("varint", "y")], [["x", s("q")], ["zz", i(1)]])
+    assert values_of(fd)["x"] == s("q") and values_of(fd)["y"] is None and "zz" not in values_of(fd)
+    return True
+
+
+if __name__ == "__main__":
+    print("refmodels_c15 selftest:", selftest())
